@@ -179,14 +179,19 @@ Proof.
 Qed.
 
 (** the F-view handed to C01's executor: for W without fa, six types; A implements I only (GI is
-    gated), I's implementations in the view are A alone; with fa the view has all eight *)
-From ApiFu Require Exe.ExecData Feat.FeaturesExe.
+    gated), I's implementations in the view are A alone; with fa the view has all eight; the
+    argument definitions listed are those of the visible object types *)
+From ApiFu Require Val.Values ExeA.ArgData Feat.FeaturesExe.
 Example C01_view_of_W :
-  let leaf := fun (_ : name) (_ : named_type) => ExecData.NScalar ExecData.KInt in
-  map fst (ExecData.types (FeaturesExe.view leaf W [])) = map nm ["Int"; "I"; "J"; "A"; "B"; "Query"] /\
-  ExecData.lookup_type (FeaturesExe.view leaf W []) (nm "A")
-  = Some (ExecData.NObject [(nm "x", ExecData.StNamed (nm "Int"))] [nm "I"]) /\
-  ExecData.impls_of (FeaturesExe.view leaf W []) (nm "I") = [nm "A"] /\
-  List.length (ExecData.types (FeaturesExe.view leaf W [fa])) = 8%nat /\
-  FeaturesExe.view leaf (erase W []) [fa] = FeaturesExe.view leaf W [].
+  let leaf := fun (_ : name) (_ : named_type) => ArgData.NScalar ArgData.KInt in
+  let inp := fun (_ : name) (_ : named_type) => Some (Values.TScalar Values.KInt) in
+  let adefs := fun (_ _ : name) (_ : list (name * sty)) => (nil : ArgData.argdefs) in
+  let view := FeaturesExe.view leaf inp adefs nil in
+  map fst (ArgData.types (view W [])) = map nm ["Int"; "I"; "J"; "A"; "B"; "Query"] /\
+  ArgData.lookup_type (view W []) (nm "A") = Some (ArgData.NObject [(nm "x", ArgData.StNamed (nm "Int"))] [nm "I"]) /\
+  ArgData.impls_of (view W []) (nm "I") = [nm "A"] /\
+  map fst (ArgData.s_argdefs (view W [])) = map nm ["A"; "B"; "Query"] /\
+  map fst (ArgData.s_inputs (view W [])) = [nm "Int"] /\
+  List.length (ArgData.types (view W [fa])) = 8%nat /\
+  view (erase W []) [fa] = view W [].
 Proof. vm_compute. repeat split; reflexivity. Qed.
